@@ -366,3 +366,37 @@ func ReturnsNilLast(info *types.Info, e Event) (isNil bool, ok bool) {
 	}
 	return ValueKey(info, e.Rhs[len(e.Rhs)-1]) == "nil", true
 }
+
+// LostAfterNonNil: after the path established that the bound error variable is non-nil
+// (use.At), is the error lost before the function returns? It is lost when the variable
+// is reassigned before the return that ends the path, or when that return yields nil.
+func LostAfterNonNil(fl *Flow, p *Path, use ResultUse) string {
+	if use.Verdict != "nonnil" || use.At < 0 || p.Exit == ExitNoReturn {
+		return ""
+	}
+	for j := use.At + 1; j < len(p.Ev); j++ {
+		e := p.Ev[j]
+		if e.Deferred {
+			continue
+		}
+		switch e.Kind {
+		case EvAssign:
+			if use.Var != nil && e.Tok != token.DEFINE {
+				for _, l := range e.Lhs {
+					if id, ok := ast.Unparen(l).(*ast.Ident); ok && fl.Info.ObjectOf(id) == use.Var {
+						return "after the failing branch the error variable is assigned again before the function returns (the loop goes on): the failure is overwritten by a later result"
+					}
+				}
+			}
+		case EvReturn:
+			if isNil, has := ReturnsNilLast(fl.Info, e); has && isNil {
+				return "the failing branch returns nil"
+			}
+			return ""
+		}
+	}
+	if p.Exit == ExitTruncated {
+		return ""
+	}
+	return "the failing branch falls off the end of the function"
+}
